@@ -265,7 +265,7 @@ class PersLandscapeExact(PersLandscape):
         # change inner nparrays into lists
         for i in range(len(A)):
             A[i] = list(A[i])
-        if A[-1][1] == np.inf:
+        if A and A[-1][1] == np.inf:
             A.pop(-1)
 
         landscape_idx = 0
